@@ -192,3 +192,41 @@ Example with_sign_loop_example :
 Proof. vm_compute. reflexivity. Qed.
 Example with_sign_loop_example_encodable : Forall signer_buckets_encodable [ws_p1; ws_p2].
 Proof. repeat (apply Forall_cons || apply Forall_nil); (split; vm_compute; discriminate). Qed.
+
+(* ---------------------------------------------------------------- C05 on the source of SignMessage.Verify *)
+(* acceptance means: every signature found a verifier by its own kid, and its OWN protected bucket passed the algorithm
+   gate of that verifier's key *)
+Definition sig_gated (vs : list sigprim) (s : sigent) : Prop :=
+  exists v, lookup_prim vs (get_bytes_ (omap (se_unprot s)) 4) = Some v /\ consume_gate (se_prot s) (sg_key v) = true.
+
+Lemma verify_all_gates vs w ext : forall sigs, verify_all vs w ext sigs = Ok tt -> Forall (sig_gated vs) sigs.
+Proof.
+  induction sigs as [|s r IH]; intro H; [constructor|]. cbn [verify_all] in H.
+  destruct (lookup_prim vs (get_bytes_ (omap (se_unprot s)) 4)) as [v|] eqn:L; [|discriminate].
+  destruct (consume_gate (se_prot s) (sg_key v)) eqn:G; cbn [negb] in H; [|discriminate].
+  destruct (structure KSign (w_prot w) (Some (se_raw s)) ext (w_payload w)) as [tbs| |]; cbn [bind] in H; try discriminate.
+  destruct (sg_verify v tbs _); [|discriminate].
+  constructor; [exists v; split; [exact L|exact G]|apply IH, H].
+Qed.
+
+Theorem gen_sign_verify_gates vs ext w sigs :
+  cose_SignMessage_Verify vs ext w (Some sigs) = Ok tt -> sigs <> [] /\ Forall (sig_gated vs) sigs.
+Proof.
+  rewrite gen_sign_verify. unfold verify_decoded. destruct vs as [|v0 vr]; [discriminate|].
+  destruct sigs as [|s r]; [discriminate|]. intro H. split; [discriminate|]. eapply verify_all_gates, H.
+Qed.
+
+(* the body's unprotected bucket (and whatever else the wire struct holds beyond the protected bytes and the payload, which
+   enter the Sig_structure) has no say: an algorithm named there binds nothing and overrides nothing *)
+Lemma verify_all_body_irrelevant vs ext w w' : w_prot w = w_prot w' -> w_payload w = w_payload w' ->
+  forall sigs, verify_all vs w ext sigs = verify_all vs w' ext sigs.
+Proof.
+  intros Hp Hl. induction sigs as [|s r IH]; [reflexivity|]. cbn [verify_all]. rewrite Hp, Hl, IH. reflexivity.
+Qed.
+
+Theorem gen_sign_verify_body_irrelevant vs ext w w' sigs : w_prot w = w_prot w' -> w_payload w = w_payload w' ->
+  cose_SignMessage_Verify vs ext w sigs = cose_SignMessage_Verify vs ext w' sigs.
+Proof.
+  intros Hp Hl. rewrite !gen_sign_verify. unfold verify_decoded. destruct vs as [|v0 vr]; [reflexivity|].
+  destruct sigs as [[|s r]|]; try reflexivity. apply verify_all_body_irrelevant; assumption.
+Qed.
